@@ -202,6 +202,19 @@ pub fn norm_msg(m: &str) -> String {
 	s
 }
 
+/// Build a Fail from the most recent panic recorded by the hook (for callers doing their own catch_unwind).
+pub fn fail_from_last_panic() -> Fail {
+	let (loc, msg) = LAST_PANIC
+		.lock()
+		.unwrap()
+		.take()
+		.unwrap_or(("?".into(), "?".into()));
+	Fail {
+		sig: format!("panic@{}:{}", norm_path(&loc), norm_msg(&msg)),
+		detail: format!("panic at {}: {}", loc, msg),
+	}
+}
+
 /// Run `f`, converting a panic into a Fail with a stable signature.
 pub fn guard<T>(f: impl FnOnce() -> T) -> Result<T, Fail> {
 	*LAST_PANIC.lock().unwrap() = None;
